@@ -1062,6 +1062,9 @@ func callBuiltin(caller *frame, fn *ssa.Builtin, args []value) value {
 		case *omap:
 			return x.len()
 		case chan value:
+			if caller != nil && caller.i.sch != nil {
+				return caller.i.sch.chanLen(x)
+			}
 			return len(x)
 		default:
 			panic(fmt.Sprintf("len: illegal operand: %T", x))
